@@ -150,7 +150,7 @@ package proxy
 
 //@ extern quiet newStreamForwarder
 //@   trusted constructor: stores its arguments in a fresh StreamForwarder (no effect on the caller's state)
-//@ extern quiet (*StreamForwarder).Run
+//@ extern quiet (*StreamForwarder).Run@handleStream
 //@ extern quiet streamIntraProxyRouting
 //@ extern quiet streamRouting@handleStream
 //@ extern pure common.IsIntraProxy
